@@ -1,4 +1,4 @@
 (* Extract_diskcrash.v — extraction of the rock crash/restart model (ExtrOcamlBasic only). *)
 Require Import ExtrOcamlBasic.
 Require Import SquidV.Bytes SquidV.DiskcrashModel.
-Extraction "m_diskcrash.ml" run_case sessions_of all_writes crash_disk rebuild hit segments fileno_of.
+Extraction "m_diskcrash.ml" lenN run_case sessions_of all_writes crash_disk rebuild hit segments fileno_of.
